@@ -381,3 +381,59 @@ class ParseFieldSelectionSetTypes(Contract):
 
 
 CONTRACTS.append(ParseFieldSelectionSetTypes())
+
+
+# ------------------------------------------------------------------------------------------ automatic __typename
+field_names = SpecMap("resolved_field_names", lambda f: fname_node(f))
+
+
+class AddTypenameFieldToSelections(Contract):
+    """the documented rewrite `automatic __typename in abstract selections`: when no resolved field is `__typename`, a plain
+    `__typename` field is put in front of the resolved fields AND in front of the authored selections (the text that is sent) - the
+    same node in both; when one is there already, both are returned as they are"""
+    props = ("C01", "C02", "C05")
+    target = MOD + "_add_typename_field_to_selections"
+    use_at_calls = False
+    frame_args = True
+    assume_proved = True
+
+    def setup(self, E):
+        fields = E.sym("resolved_fields", ListOf(FIELD_SHAPE, name="resolved_fields_atf"))
+        sel = Obj(G.SelectionSetNode, {"selections": E.sym("authored_selections", Pred(V.is_VTuple, "tuple"))})
+        return [self_obj(RT.ResultTypesGenerator, {}), fields, sel], {}
+
+    def ensures(self, A, res):
+        fs = V.vl(A.resolved_fields)
+        p = A.get("__path__")
+        names = field_names.apply(p, fs) if p is not None else field_names(fs)
+        there = V.vl_contains(names, S(K.TYPENAME_FIELD_NAME))
+        sels = V.attr_of(A.selection_set, G.SelectionSetNode, "selections")
+        out_fields, out_sels = V.nth(V.vt(res), 0), V.nth(V.vt(res), 1)
+        node = V.nth(V.vl(out_fields), 0)
+        plain = z3.And(GQ.is_cls(node, V.REG.info(G.FieldNode)), fname_node(node) == S(K.TYPENAME_FIELD_NAME),
+                       V.is_VNone(V.attr_of(node, G.FieldNode, "alias")), z3.Not(truthy(V.attr_of(node, G.FieldNode, "directives"))),
+                       V.is_VNone(V.attr_of(node, G.FieldNode, "selection_set")), z3.Not(truthy(V.attr_of(node, G.FieldNode, "arguments"))))
+        return {"unchanged-when-typename-is-selected-already": z3.Implies(there, z3.And(out_fields == A.resolved_fields, out_sels == sels)),
+                "a-plain-typename-field-in-front-of-the-fields-and-of-the-authored-selections": z3.Implies(z3.Not(there), z3.And(
+                    plain, out_fields == V.VList(V.VCons(node, fs)), out_sels == V.VTuple(V.VCons(node, V.vt(sels)))))}
+
+    def replay_custom(self, inputs):
+        g = RT.ResultTypesGenerator.__new__(RT.ResultTypesGenerator)
+        rep = dict(inputs={"selection sets": 3}, failed=[], undetermined=[], pre_ok=True, outcome={}, error=None)
+        for src in ("{ id name }", "{ id __typename }", "{ kind: __typename id }", "{ }" if False else "{ id }"):
+            ss = G.parse(src).definitions[0].selection_set
+            fields = [s for s in ss.selections]
+            f2, s2 = g._add_typename_field_to_selections(list(fields), ss)
+            has = any(f.name.value == "__typename" for f in fields)
+            ok = (f2 == fields and tuple(s2) == tuple(ss.selections)) if has else (
+                len(f2) == len(fields) + 1 and f2[0].name.value == "__typename" and f2[0].alias is None and f2[1:] == fields and s2[0] is f2[0] and tuple(s2[1:]) == tuple(ss.selections))
+            rep["outcome"][src] = [f.name.value for f in f2]
+            if not ok:
+                rep["failed"].append("post.a-plain-typename-field-in-front-of-the-fields-and-of-the-authored-selections" if not has else "post.unchanged-when-typename-is-selected-already")
+        return rep
+
+    def samples(self, tier):
+        return [dict(case="selection sets")]
+
+
+CONTRACTS.append(AddTypenameFieldToSelections())
